@@ -125,7 +125,7 @@ impl Model {
     ///
     /// When bincode generates an error, it will be returned as is.
     pub fn read_slice(slice: &[u8]) -> Result<(Self, &[u8])> {
-        if &slice[..MODEL_MAGIC.len()] != MODEL_MAGIC {
+        if slice.get(..MODEL_MAGIC.len()) != Some(MODEL_MAGIC) {
             return Err(VaporettoError::invalid_model("model version mismatch"));
         }
         let config = bincode::config::standard();
